@@ -52,9 +52,23 @@ pub fn gen_history(seed: u64, k: usize) -> (GenCfg, Vec<Op>) {
         cfg.op_weights[1] = 0;
         cfg.op_weights[2] = 0;
     }
+    // Every third history is index-heavy: one label, one key and an index on them from the
+    // start, so that every property write goes through index maintenance inside commit.
+    let index_heavy = k % 3 == 2;
+    if index_heavy {
+        cfg.labels = vec!["A".into()];
+        cfg.keys = vec!["k".into()];
+        cfg.simple_values = true;
+    }
     let cfg2 = cfg.clone();
     let mut g = HistoryGen::new(&cfg2);
-    let h = g.gen_history(&mut rng, n);
+    let mut h = Vec::new();
+    if index_heavy {
+        let op = Op::CreateIndex { label: "A".into(), field: "k".into() };
+        g.model.apply_op(&op);
+        h.push(op);
+    }
+    h.extend(g.gen_history(&mut rng, n));
     (cfg, h)
 }
 
@@ -295,7 +309,11 @@ pub fn judge_image(
             // does it equal an *older* committed state? then acknowledged work was lost (C01)
             let older = rec.lives.iter().find(|(cc, l)| *cc < info.acked && *l == d).map(|(cc, _)| *cc);
             // nearest candidate for the diff
-            let cand = rec.lives.iter().filter(|(cc, _)| *cc >= info.acked && *cc <= info.started).map(|(_, l)| l).min_by_key(|l| diff_facts(l, &d, 1000).len());
+            let cand = rec.lives.iter().filter(|(cc, _)| *cc >= info.acked && *cc <= info.started).map(|(_, l)| l).min_by_key(|l| {
+                // nearest = fewest differences in the graph views first, index view second
+                let df = diff_facts(l, &d, 1000);
+                (df.iter().filter(|(k, _, _)| !k.starts_with("x/")).count(), df.len())
+            });
             let diff = cand.map(|l| diff_facts(l, &d, 10)).unwrap_or_default();
             if let Some(o) = older {
                 viols.push(mk(
